@@ -91,6 +91,10 @@ func Call(
 	}
 	fn, ok := obj.(*object.Function)
 	if !ok {
+		if obj == nil {
+			// a global that was declared but never given a value
+			return nil, fmt.Errorf("object is not a function (global %q has no value)", functionName)
+		}
 		return nil, fmt.Errorf("object is not a function (got: %s)", obj.Type())
 	}
 
